@@ -16,6 +16,8 @@ Event(ev) ==
                                /\ ev.mdok                                       \* C10: metadata passed through unchanged
                                /\ ev.deliveries = [c \in 1 .. K |-> c]         \* consumers served in attachment order
                                /\ (ev.fired <=> (Len(fired') > Len(fired)))
+                               \* the callback fires at most once, and only after the last consumer has been called
+                               /\ ev.fires <= 1 /\ (ev.fired => ev.firedAfter = K)
       [] ev.ev = "ConsumerDone" -> ConsumerDone(ev.e, ev.c)
       [] ev.ev = "EmitDone" -> EmitDone(ev.e)
       [] ev.ev = "ObsRc" -> (\A e \in 1 .. Len(ev.rc) : rc[e] = ev.rc[e]) /\ Same
